@@ -281,8 +281,8 @@ def _spec_len(prog, lens):
             return prog["plens"][prog["part"]]
         return lens[prog["t"]]
     if "cat" in prog:
-        a, b = (_spec_len(p, lens) for p in prog["cat"])
-        return None if a is None or b is None else a + b
+        ls = [_spec_len(p, lens) for p in prog["cat"]]
+        return None if None in ls else sum(ls)
     if "catall" in prog:
         return sum(lens[:prog["catall"]])
     if "touch" in prog:
@@ -759,8 +759,8 @@ def _spec_eval(p, tabs):
             return list(tabs[p["t"]][off:off + p["plens"][p["part"]]])
         return list(tabs[p["t"]])
     if "cat" in p:
-        a, b = (_spec_eval(q, tabs) for q in p["cat"])
-        return None if a is None or b is None else a + b
+        ls = [_spec_eval(q, tabs) for q in p["cat"]]
+        return None if any(x is None for x in ls) else [r for x in ls for r in x]
     if "catall" in p:
         return [r for t in tabs[:p["catall"]] for r in t]
     if "touch" in p:
@@ -1100,6 +1100,10 @@ def model_request(c):
 
     def tr(p):
         if "t" in p:
+            if "part" in p:         # one chunk of the file: a table of its own (the records the reader put into that chunk)
+                off = sum(p["plens"][:p["part"]])
+                tabs.append(tabs[p["t"]][off:off + p["plens"][p["part"]]])
+                return {"t": len(tabs) - 1}
             if "chunk" not in p:
                 return {"t": p["t"]}
             parts = _chunk_parts(c, p["t"], p["chunk"]) or [len(tabs[p["t"]])]
@@ -1110,7 +1114,11 @@ def model_request(c):
                 pos += n
             return {"catr": [a, len(parts)]}
         if "cat" in p:
-            return {"cat": [tr(q) for q in p["cat"]]}
+            qs = [tr(q) for q in p["cat"]]
+            if len(qs) != 2:        # n-ary concatenation of leaves: a range of tables
+                assert all(set(q) == {"t"} for q in qs) and [q["t"] for q in qs] == list(range(qs[0]["t"], qs[0]["t"] + len(qs)))
+                return {"catr": [qs[0]["t"], len(qs)]}
+            return {"cat": qs}
         if "catall" in p:
             return {"catr": [0, p["catall"]]}
         if "touch" in p:
